@@ -24,7 +24,7 @@ OPS = ["accepts", "accepts", "to_deterministic", "remove_epsilon_transitions", "
 
 
 def generate(ctx):
-    n = 420 if ctx.tier == "quick" else 6000
+    n = 1200 if ctx.tier == "quick" else 12000
     cases = []
     for i in range(n):
         names = ctx.rng.choice(["plain", "plain", "int", "adv"])
